@@ -185,7 +185,10 @@ func init() {
 		}
 		for i := range vals {
 			for _, src := range []string{"{%= v %}", "{% if v == 1 %}T{% else %}F{% endif %}", `{% if v == "a" %}T{% endif %}`, "{% if len(v) > 1 %}T{% endif %}", "{% if cap(v.x) > 1 %}T{% endif %}",
-				"{% for i := 0; i < v; i++ %}x{% endfor %}", "{% for i := v; i < 3; i++ %}x{% endfor %}", "{% for k, x := range v %}{%= k %}{%= x %}{% endfor %}", "{% for _, x := range v.a.b %}{%= x %}{% endfor %}",
+				"{% for i := 0; i < v; i++ %}x{% endfor %}", "{% for i := v; i < 3; i++ %}x{% endfor %}",
+				// empty bodies, empty else parts, zero iterations
+				"{% for i := 0; i < v; i++ %}{% endfor %}|", "{% for i := 7; i < v; i++ %}{% endfor %}|{% for i := 0; i < 0; i++ %}{% else %}{% endfor %}|", "{% for _, x := range v %}{% endfor %}|{% for _, x := range v %}{% else %}{% endfor %}|",
+				"{% if v == 1 %}{% endif %}{% if v == 1 %}{% else %}{% endif %}{% switch v %}{% endswitch %}{% switch v %}{% case 1 %}{% default %}{% endswitch %}{% switch %}{% endswitch %}|", "{% for k, x := range v %}{%= k %}{%= x %}{% endfor %}", "{% for _, x := range v.a.b %}{%= x %}{% endfor %}",
 				"{% switch v %}{% case 1 %}a{% case \"b\" %}b{% default %}d{% endswitch %}", "{% ctx x = v %}{%= x %}", "{% ctx x, ok = v.a %}{%= ok %}", "{% counter v++ %}{%= v %}", "{% counter c = 1 %}{% counter c+5 %}{%= c %}",
 				"{%= v.a.b.c %}", "{%= v[v] %}", "{% for i := 0; i < 2; i++ %}{%= v[i] %}{%= v[v] %}{%= v[nope].x %}{% endfor %}", "{%j= v %}{%hh= v %}{%f.2= v %}{%F.3= v %}{%qq= v %}",
 				// square brackets in odd places (the [i] substitution slices the path between them)
